@@ -48,7 +48,7 @@ def corpus(rng):
         "gz-trunc": gzip.compress(b"hello world\n" * 1000)[:200], "gz-empty": gzip.compress(b""), "gz-corrupt": gzip.compress(b"abc\n" * 500)[:40] + b"\xff" * 40,
         "bz2-trunc": bz2.compress(b"hello world\n" * 1000)[:60], "bz2-corrupt": bz2.compress(b"abc\n" * 500)[:30] + b"\x00" * 50,
         "xz-trunc": lzma.compress(b"hello world\n" * 1000)[:80], "gz-then-junk": gzip.compress(b"a\n") + b"junk after member\n",
-        "tsv-short": b"a\tb\n\n\t\t\t\t\t\n", "xml": b"<DOC>\n<TEXT>\n<P>\n&amp; &lt; (BEGIN BRACKET) x\n</P>\n", "words": b"the " * 20000 + b"\n",
+        "tsv-short": b"a\tb\n\n\t\t\t\t\t\n", "tsv-wide": b"a\tb\tc\td\te\tf\tg\th\n" * 3 + b"\n1\t2\t3\n", "xml": b"<DOC>\n<TEXT>\n<P>\n&amp; &lt; (BEGIN BRACKET) x\n</P>\n", "words": b"the " * 20000 + b"\n",
     }
     # WARC lengths for which header bytes + length + 4 wraps around 2^64 to 0..5 (and the same around 2^63 and 2^32)
     for mod_, nm in ((1 << 64, "64"), (1 << 63, "63"), (1 << 32, "32")):
@@ -73,6 +73,9 @@ def run(ctx):
     open(emptyf, "wb").write(b"")
     child_cat = ["cat"]
     T = [("dedupe", []), ("dedupe", ["-f", "2"]), ("dedupe", ["-f", "0"]), ("dedupe", ["-f", "1-2-3"]), ("dedupe", ["-f", ""]), ("dedupe", ["-d", "ab"]),
+         # ranges that are empty or backwards by one, alone and inside a list
+         ("dedupe", ["-f", "3-2"]), ("dedupe", ["-f", "1-0"]), ("dedupe", ["-f", "-0"]), ("dedupe", ["-f", "1,3-2"]), ("dedupe", ["-f", "2-2"]), ("dedupe", ["-f", "5-4,7"]),
+         ("cache", ["-k", "3-2", "cat"]), ("cache", ["-k", "-0", "cat"]), ("dedupe", ["-f", "1,2,2"]), ("dedupe", ["-f", "3-,1"]),
          ("cache", child_cat), ("cache", ["-k", "2", "cat"]), ("foldfilter", ["-w", "7", "cat"]), ("foldfilter", ["-w", "0", "cat"]), ("foldfilter", ["-w", "-3", "cat"]),
          ("foldfilter", ["-w", "3", "-s", "-d", "", "cat"]), ("b64filter", child_cat), ("base64_number", []), ("docenc", []), ("docenc", ["-d"]), ("docenc", ["-d", "-0", "2-1"]),
          ("docenc", ["-0", "99999999999999999999"]), ("commoncrawl_dedupe", []), ("commoncrawl_dedupe", [sub]), ("idf", []), ("mmhsum", []), ("order_independent_hash", []),
@@ -87,7 +90,7 @@ def run(ctx):
     names = sorted(cps)
     n_ok = 0
     for (tool, args) in T:
-        picks = names if ctx.tier != "quick" else rng.sample(names, 9) + ["empty", "invalid-utf8", "bz2-trunc", "gz-empty"] + ([n for n in names if "warc" in n] if tool.startswith("warc") else []) + ([n for n in names if "b64" in n] if tool in ("docenc", "base64_number", "b64filter", "remove_invalid_utf8_base64") else [])
+        picks = names if ctx.tier != "quick" else rng.sample(names, 9) + ["empty", "invalid-utf8", "bz2-trunc", "gz-empty"] + ([n for n in names if "warc" in n] if tool.startswith("warc") else []) + ([n for n in names if "b64" in n] if tool in ("docenc", "base64_number", "b64filter", "remove_invalid_utf8_base64") else []) + (["tabs", "tsv-short", "tsv-wide"] if any(a_ in ("-f", "-k") for a_ in args) else [])
         for nm in dict.fromkeys(picks):
             data = cps[nm]
             st, out, err = pvlib.run_tool([ctx.bin(tool)] + args, data, env=pvlib.san_env(), timeout=12 if ctx.tier == "quick" else 40)
